@@ -9,6 +9,7 @@ from ._abnf import ABNF, STATUS_NORMAL, continuous_frame, frame_buffer
 from ._exceptions import (
     WebSocketConnectionClosedException,
     WebSocketException,
+    WebSocketPayloadException,
     WebSocketProtocolException,
 )
 from ._handshake import SUPPORTED_REDIRECT_STATUSES, handshake
@@ -409,7 +410,14 @@ class WebSocket:
         if opcode == ABNF.OPCODE_TEXT:
             data_received: Union[bytes, str] = data
             if isinstance(data_received, bytes):
-                return data_received.decode("utf-8")
+                try:
+                    return data_received.decode("utf-8")
+                except UnicodeDecodeError:
+                    # only reachable when the payload was not validated
+                    # (skip_utf8_validation / fire_cont_frame)
+                    raise WebSocketPayloadException(
+                        f"cannot decode: {repr(data_received)}"
+                    )
             elif isinstance(data_received, str):
                 return data_received
         elif opcode == ABNF.OPCODE_BINARY:
